@@ -3,6 +3,7 @@ package main
 // C19, second file: projection of raw run logs into the Join / Dispatch traces, judges, generators, driver, replay.
 
 import (
+	"encoding/hex"
 	"bytes"
 	"encoding/json"
 	"fmt"
@@ -24,7 +25,7 @@ func init() { drivers["C19"] = driver{run: runC19, replay: replayC19} }
 
 func jnCfgOf(sc *jnScenario) map[string]any {
 	return map[string]any{
-		"t": sc.T, "name": ints([]byte(sc.Name)), "ouuid": ints(jnOfflineUUID(sc.Name)), "buuid": ints(make([]byte, 16)),
+		"t": sc.T, "name": ints([]byte(sc.Name)), "ouuid": ints(jnOfflineUUID(sc.Name)), "buuid": ints(sc.buuid()),
 		"proto": bot.ProtocolVersion, "refuse": sc.Refuse, "intent": sc.Intent, "pat": 0,
 		"status": []any{ints([]byte(jnStatusName)), bot.ProtocolVersion, jnStatusMax, sc.Online, ints([]byte(jnStatusMotd))},
 		"ping":   []int{},
@@ -472,6 +473,15 @@ func jnRandomScenario(seed int64, id int, thorough bool) jnScenario {
 		maxPk = 200
 	}
 	sc := jnScenario{ID: id, Origin: "random", Seed: seed + int64(id), Transport: "mem", Intent: 2, T: thrs[rng.Intn(len(thrs))], Name: jnNames[rng.Intn(len(jnNames))]}
+	switch rng.Intn(3) { // the bot's own idea of its UUID: none, the offline one, a foreign one (the gate decides, not the client)
+	case 1:
+		sc.BUUID = hex.EncodeToString(jnOfflineUUID(sc.Name))
+	case 2:
+		f := make([]byte, 16)
+		rng.Read(f)
+		f[6], f[8] = f[6]&0x0f|0x40, f[8]&0x3f|0x80
+		sc.BUUID = hex.EncodeToString(f)
+	}
 	sc.Online = rng.Intn(4)
 	if id%12 == 0 { // a status ping against the same kind of server (PingAndList dials TCP itself)
 		sc.Intent, sc.Transport = 1, "tcp"
